@@ -240,6 +240,7 @@ class _AsyncFileReader(_UnicodeReader[AnyStr]):
         self._bufsize = bufsize
         self._datatype = datatype
         self._paused = False
+        self._feed_task: Optional[asyncio.Task[None]] = None
 
     async def _feed(self) -> None:
         """Feed file data"""
@@ -257,7 +258,7 @@ class _AsyncFileReader(_UnicodeReader[AnyStr]):
     def feed(self) -> None:
         """Start feeding file data"""
 
-        self._conn.create_task(self._feed())
+        self._feed_task = self._conn.create_task(self._feed())
 
     def pause_reading(self) -> None:
         """Pause reading from the file"""
@@ -268,7 +269,11 @@ class _AsyncFileReader(_UnicodeReader[AnyStr]):
         """Resume reading from the file"""
 
         self._paused = False
-        self.feed()
+
+        # The feed task only notices a pause between reads, so it may
+        # still be waiting for data here. Don't start a second one.
+        if self._feed_task is None or self._feed_task.done():
+            self.feed()
 
     def close(self) -> None:
         """Stop forwarding data from the file"""
@@ -548,6 +553,7 @@ class _StreamReader(_UnicodeReader[AnyStr]):
         self._bufsize = bufsize
         self._datatype = datatype
         self._paused = False
+        self._feed_task: Optional[asyncio.Task[None]] = None
 
     async def _feed(self) -> None:
         """Feed stream data"""
@@ -565,7 +571,7 @@ class _StreamReader(_UnicodeReader[AnyStr]):
     def feed(self) -> None:
         """Start feeding stream data"""
 
-        self._conn.create_task(self._feed())
+        self._feed_task = self._conn.create_task(self._feed())
 
     def pause_reading(self) -> None:
         """Pause reading from the stream"""
@@ -576,7 +582,11 @@ class _StreamReader(_UnicodeReader[AnyStr]):
         """Resume reading from the stream"""
 
         self._paused = False
-        self.feed()
+
+        # The feed task only notices a pause between reads, so it may
+        # still be waiting for data here. Don't start a second one.
+        if self._feed_task is None or self._feed_task.done():
+            self.feed()
 
     def close(self) -> None:
         """Ignore close -- the caller must clean up the associated transport"""
